@@ -3,6 +3,7 @@ HEM = "hippolyzer/lib/proxy/http_event_manager.py"
 REG = "hippolyzer/lib/proxy/region.py"
 STATE = "hippolyzer/lib/client/state.py"
 SESS = "hippolyzer/lib/proxy/sessions.py"
+MSG = "hippolyzer/lib/base/message/message.py"
 
 _FILTER = (
     "                    new_events = []\n"
@@ -198,6 +199,21 @@ VARIANTS = [
      "old": _REGISTER_TAIL,
      "new": "        if sim_addr is None:\n            return False\n"
             "        session.register_region(sim_addr, handle=sim_handle, seed_url=sim_seed)\n        return False\n"},
+    # ---- round 3: teardown, foreign event bodies
+    {"name": "R3 mark_dead clears the event queue manager only on one path", "file": REG, "expect": "C17.R3",
+     "old": "        super().mark_dead()\n        self.eq_manager.clear()\n",
+     "new": "        super().mark_dead()\n        if self.circuit:\n            self.eq_manager.clear()\n"},
+    {"name": "R3 EventQueueManager.clear keeps the cached payload", "file": REG, "expect": "C17.R3",
+     "old": "        self._last_ack = None\n        self._last_payload = None\n", "new": "        self._last_ack = None\n"},
+    {"name": "P R3 event queue manager cleared before the base teardown", "file": REG, "expect": "silent",
+     "old": "        super().mark_dead()\n        self.eq_manager.clear()\n",
+     "new": "        self.eq_manager.clear()\n        super().mark_dead()\n"},
+    {"name": "R1 from_eq_event expands any truthy body as keywords", "file": MSG, "expect": "C17.R1",
+     "old": "        if isinstance(event[\"body\"], dict):\n", "new": "        if event[\"body\"]:\n"},
+    {"name": "P R1 from_eq_event with the body in a local", "file": MSG, "expect": "silent",
+     "old": "        if isinstance(event[\"body\"], dict):\n            msg.add_block(Block(\"EventData\", **event[\"body\"]))\n",
+     "new": "        payload = event[\"body\"]\n        if isinstance(payload, dict):\n"
+            "            msg.add_block(Block(\"EventData\", **payload))\n"},
     # ---- documented limit
     {"name": "X swallow on any truthy hook result instead of `is True` (value level)", "file": HEM, "expect": "miss",
      "old": "        if handle_event is True:\n", "new": "        if handle_event:\n"},
